@@ -102,6 +102,9 @@ func (c *FnCtx) fnEnv(st, old *State, withResults bool) *Env {
 		} else if a, ok := el.Underlying().(*types.Array); ok {
 			_ = a
 			env.vars[fv.Name()] = TV{T: c.vals[fv], Ty: fv.Type()}
+		} else if t, ok := c.frozenFreeVar(fv); ok {
+			// assigned once where it is declared and only read since: a constant
+			env.vars[fv.Name()] = TV{T: t, Ty: el}
 		} else {
 			env.vars[fv.Name()] = TV{Ty: el, Loc: &Loc{Kind: "cell", Comp: c.cellComp(el), Ref: c.vals[fv], T: el, Root: el}}
 		}
@@ -833,6 +836,10 @@ func (c *FnCtx) loopModified(li *LoopInfo) {
 					if !detailed[comp] {
 						other[comp] = true
 					}
+				}
+			case *ssa.Go:
+				if c.spec != nil && len(c.spec.Sets) > 0 {
+					c.pointSetMods("go:"+c.resolveCallee(&x.Call).name, other)
 				}
 			case *ssa.Defer:
 				if c.callMods(&x.Call, other) {
